@@ -1,3 +1,420 @@
-(* Properties/C12.v — statements only. *)
-From Dnp3V Require Import Outstation.Session Outstation.SessionProofs.
+(* Properties/C12.v — statements only.
+   C12: outstation replies are well-formed, correlated, bounded, and report rejections.
+   Everything is stated over the session model Outstation/Session.v:
+     ostep cfg s event answers = (s', observations),  OTx dest bytes = a fragment handed to the transport.
+   `Reach AP cfg s`: s is reached from start-up (ostart) by any sequence of steps (ostep) whose
+   answers of the environment satisfy AP; `any_answers` is the trivial AP.  Definitions used in the
+   statements (all in Outstation/SessionC12Proofs.v and SessionLemmas_c12.v): no_tx o = "o is not an
+   OTx", rx_state, frame_id_next, unsol_txs / chain_ok / last_tx / U / run_obs / ofinal (section 3),
+   hdr_rejected and the per-function *_rejects predicates (section 5), the echo groups (section 6). *)
+From Dnp3V Require Import Outstation.Session Outstation.SessionLemmas_c12 Outstation.SessionC12Proofs.
+Import ListNotations.
 Open Scope N_scope.
+
+(* ---------- 1. shape of every transmitted fragment ---------------------------------------------- *)
+
+(* every OTx of any step from any reachable state: at least a response header; function code 129
+   (then UNS is clear) or 130 (then FIR, FIN, CON, UNS are all set and it goes to the configured master) *)
+Theorem C12_tx_shape : forall cfg s ev answers dest bytes,
+  Reach any_answers cfg s ->
+  In (OTx dest bytes) (snd (ostep cfg s ev answers)) ->
+  (4 <= length bytes)%nat /\
+  (nth 1 bytes 0 = 129 \/ nth 1 bytes 0 = 130) /\
+  (nth 1 bytes 0 = 129 -> N.testbit (nth 0 bytes 0) 4 = false) /\
+  (nth 1 bytes 0 = 130 -> 240 <= nth 0 bytes 0 < 256 /\ dest = o_master cfg).
+Proof. exact tx_shape. Qed.
+Print Assumptions C12_tx_shape.
+
+Theorem C12_tx_shape_start : forall cfg sel op iin a0 dest bytes,
+  In (OTx dest bytes) (snd (ostart cfg sel op iin a0)) ->
+  (4 <= length bytes)%nat /\
+  (nth 1 bytes 0 = 129 \/ nth 1 bytes 0 = 130) /\
+  (nth 1 bytes 0 = 129 -> N.testbit (nth 0 bytes 0) 4 = false) /\
+  (nth 1 bytes 0 = 130 -> 240 <= nth 0 bytes 0 < 256 /\ dest = o_master cfg).
+Proof. exact tx_shape_start. Qed.
+Print Assumptions C12_tx_shape_start.
+
+(* Reach, spelled out *)
+Theorem C12_Reach_spec : forall AP cfg s,
+  Reach AP cfg s <->
+  ((exists sel op iin a0, AP a0 /\ s = fst (ostart cfg sel op iin a0)) \/
+   (exists s0 ev ans, Reach AP cfg s0 /\ AP ans /\ s = fst (ostep cfg s0 ev ans))).
+Proof. exact Reach_spec. Qed.
+Print Assumptions C12_Reach_spec.
+
+(* at the boundaries of a step no fragment is left unprocessed, and a deferred READ exists only while
+   an unsolicited confirmation is awaited (the idle loop provably never runs out of fuel) *)
+Theorem C12_no_pending_at_step_boundaries : forall AP cfg s,
+  Reach AP cfg s ->
+  s_pending s = None /\ (s_deferred s <> None -> exists resp n k dl, s_control s = CUnsolWait resp n k dl).
+Proof. exact no_pending_at_step_boundaries. Qed.
+Print Assumptions C12_no_pending_at_step_boundaries.
+
+(* ---------- 2. solicited responses are correlated ------------------------------------------------- *)
+
+(* an accepted unicast request processed from idle: the step starts with IIdleRequest fn seq, and
+   EVERY solicited fragment of the step goes to the sender with the request's sequence number
+   (all classifications but the verbatim retransmission of a non-READ request, next theorem) *)
+Theorem C12_solicited_correlated : forall AP cfg s from bytes d answers ctl fn obj,
+  Reach AP cfg s -> s_control s = CIdle ->
+  to_treq cfg from d = TqRequest ctl fn obj ->
+  (forall last, classify s None bytes ctl fn obj <> FtRepeatNonRead last) ->
+  (exists rest, snd (ostep cfg s (ERx from None bytes d) answers) = OInfo (IIdleRequest fn (ctl_seq ctl)) :: rest) /\
+  Forall (fun o => match o with
+                   | OTx dest b => nth 1 b 0 = 129 -> dest = from /\ ctl_seq (nth 0 b 0) = ctl_seq ctl
+                   | _ => True
+                   end) (snd (ostep cfg s (ERx from None bytes d) answers)).
+Proof. exact solicited_correlated. Qed.
+Print Assumptions C12_solicited_correlated.
+
+(* the retransmission: same sequence number and same bytes as the recorded last request; every
+   solicited fragment of the step is the recorded response, sent to the sender *)
+Theorem C12_solicited_repeat : forall AP cfg s from bytes d answers ctl fn obj last,
+  Reach AP cfg s -> s_control s = CIdle ->
+  to_treq cfg from d = TqRequest ctl fn obj ->
+  classify s None bytes ctl fn obj = FtRepeatNonRead last ->
+  (exists l, s_last s = Some l /\ lr_seq l = ctl_seq ctl /\ lr_bytes l = bytes /\ lr_response l = last) /\
+  Forall (fun o => match o with
+                   | OTx dest b => nth 1 b 0 = 129 ->
+                                   dest = from /\ exists r buf, last = Some r /\ b = response_bytes r buf
+                   | _ => True
+                   end) (snd (ostep cfg s (ERx from None bytes d) answers)).
+Proof. exact solicited_repeat. Qed.
+Print Assumptions C12_solicited_repeat.
+
+(* the fragment following a solicited confirm: confirmed sequence + 1 mod 16, FIR clear *)
+Theorem C12_next_fragment_sequence : forall AP cfg s answers from bytes d se dl r ctl obj,
+  Reach AP cfg s ->
+  s_control s = CSolWait se dl r -> se_fin se = false ->
+  to_treq cfg from d = TqRequest ctl 0 obj -> ctl_uns ctl = false -> ctl_seq ctl = se_ecsn se ->
+  exists pre b post,
+    snd (on_rx cfg (upd_answers s answers) from None bytes d) = pre ++ OTx from b :: post /\
+    Forall no_tx pre /\
+    Forall (fun o => match o with OTx _ b' => nth 1 b' 0 = 130 | _ => True end) post /\
+    nth 1 b 0 = 129 /\
+    ctl_seq (nth 0 b 0) = seq16_next (se_ecsn se) /\ N.testbit (nth 0 b 0) 7 = false.
+Proof. exact next_fragment_sequence. Qed.
+Print Assumptions C12_next_fragment_sequence.
+
+(* a READ arriving during an unsolicited confirm wait is deferred with its sequence number and source *)
+Theorem C12_deferred_read_recorded : forall cfg s resp from bytes d fid ctl obj hdrs rh,
+  to_treq cfg from d = TqRequest ctl fn_read obj ->
+  (classify s None bytes ctl fn_read obj = FtNewRead hdrs rh \/
+   exists last, classify s None bytes ctl fn_read obj = FtRepeatRead last hdrs rh) ->
+  exists s',
+    unsol_wait_fragment cfg s resp from None bytes d fid = (s', None, []) /\
+    exists x, s_deferred s' = Some {| df_bytes := bytes; df_seq := ctl_seq ctl; df_from := from; df_iin2 := x |}.
+Proof. exact deferred_read_recorded. Qed.
+Print Assumptions C12_deferred_read_recorded.
+
+(* ... and is answered with exactly one solicited fragment, FIR set, own sequence number, to its source *)
+Theorem C12_deferred_read_answered : forall cfg s ns df,
+  s_deferred s = Some df ->
+  exists pre b post,
+    snd (handle_deferred cfg s ns) = pre ++ OTx (df_from df) b :: post /\
+    Forall no_tx pre /\ Forall no_tx post /\ nth 1 b 0 = 129 /\
+    ctl_seq (nth 0 b 0) = df_seq df mod 16 /\ N.testbit (nth 0 b 0) 7 = true /\
+    s_deferred (fst (handle_deferred cfg s ns)) = None.
+Proof. exact deferred_read_answered. Qed.
+Print Assumptions C12_deferred_read_answered.
+
+(* ---------- 3. numbering of unsolicited responses -------------------------------------------------- *)
+
+(* along any run (start-up, then any events with any answers): each unsolicited fragment repeats its
+   predecessor byte for byte or carries the predecessor's sequence number + 1 mod 16 *)
+Theorem C12_unsolicited_numbering : forall cfg sel op iin a0 evs,
+  chain_ok None (unsol_txs (run_obs cfg sel op iin a0 evs)).
+Proof. exact unsolicited_numbering. Qed.
+Print Assumptions C12_unsolicited_numbering.
+
+(* chain_ok, spelled out for two neighbours *)
+Theorem C12_chain_ok_neighbours : forall l1 a b l2,
+  chain_ok None (l1 ++ a :: b :: l2) ->
+  b = a \/ ctl_seq (nth 0 b 0) = seq16_next (ctl_seq (nth 0 a 0)).
+Proof. exact chain_ok_neighbours. Qed.
+Print Assumptions C12_chain_ok_neighbours.
+
+(* the state after the run against the trace: s_unsol_seq < 16 is the successor of the last
+   unsolicited sequence number sent; in the confirm wait the fragment kept for retries is the last one sent *)
+Theorem C12_unsolicited_state_tracks_trace : forall cfg sel op iin a0 evs,
+  let s := ofinal cfg (fst (ostart cfg sel op iin a0)) evs in
+  let prev := last_tx None (unsol_txs (run_obs cfg sel op iin a0 evs)) in
+  s_unsol_seq s < 16 /\
+  (forall p, prev = Some p -> seq16_next (ctl_seq (nth 0 p 0)) = s_unsol_seq s) /\
+  (forall resp n k dl, s_control s = CUnsolWait resp n k dl -> prev = Some (response_bytes resp (s_unsol_buf s))).
+Proof. exact unsolicited_state_tracks_trace. Qed.
+Print Assumptions C12_unsolicited_state_tracks_trace.
+
+(* a NEW unsolicited response (null or data) takes s_unsol_seq and advances it mod 16 *)
+Theorem C12_new_unsolicited_sequence : forall cfg s s' ns o,
+  s_unsol_seq s < 16 -> check_unsolicited cfg s = (s', ns, o) ->
+  (unsol_txs o = [] /\ s_unsol_seq s' = s_unsol_seq s /\ s_control s' = s_control s) \/
+  (exists resp n k dl b,
+     s_control s' = CUnsolWait resp n k dl /\ b = response_bytes resp (s_unsol_buf s') /\
+     unsol_txs o = [b] /\ nth 1 b 0 = 130 /\ 240 <= nth 0 b 0 /\ ctl_seq (nth 0 b 0) = s_unsol_seq s /\
+     s_unsol_seq s' = seq16_next (s_unsol_seq s) /\ In (OTx (o_master cfg) b) o).
+Proof. exact new_unsolicited_sequence. Qed.
+Print Assumptions C12_new_unsolicited_sequence.
+
+(* a retry re-sends the kept fragment unchanged and leaves s_unsol_seq alone *)
+Theorem C12_unsolicited_retry_same_bytes : forall cfg s resp n k dl,
+  s_control s = CUnsolWait resp n k dl ->
+  k <> Some 0%nat -> s_deferred s = None ->
+  fire_deadline cfg s =
+  (upd_control s (CUnsolWait resp n (match k with Some (S m) => Some m | x => x end) (confirm_deadline cfg s)),
+   [OInfo (IUnsolTimeout (ctl_seq (r_ctl resp)) true); OTx (o_master cfg) (response_bytes resp (s_unsol_buf s))]).
+Proof. exact unsolicited_retry_same_bytes. Qed.
+Print Assumptions C12_unsolicited_retry_same_bytes.
+
+Theorem C12_unsol_seq_bounded : forall AP cfg s, Reach AP cfg s -> s_unsol_seq s < 16.
+Proof. exact unsol_seq_bounded. Qed.
+Print Assumptions C12_unsol_seq_bounded.
+
+(* ---------- 4. function codes that forbid a reply ---------------------------------------------------- *)
+
+(* well-formed unicast CONFIRM / DIRECT_OPERATE_NR / IMMED_FREEZE_NR / FREEZE_CLEAR_NR /
+   FREEZE_AT_TIME_NR from idle: no solicited fragment in the whole step; any fragment of the step is an
+   unsolicited response (130) the idle loop started on its own *)
+Theorem C12_no_reply_functions : forall AP cfg s from bytes d answers ctl fn hdrs rh,
+  Reach AP cfg s -> s_control s = CIdle ->
+  to_treq cfg from d = TqRequest ctl fn (ObjOk hdrs rh) ->
+  In fn [0; 6; 8; 10; 12] ->
+  (forall r, classify s None bytes ctl fn (ObjOk hdrs rh) <> FtRepeatNonRead (Some r)) ->
+  Forall (fun o => match o with OTx _ b => nth 1 b 0 = 130 | _ => True end)
+         (snd (ostep cfg s (ERx from None bytes d) answers)).
+Proof. exact no_reply_functions. Qed.
+Print Assumptions C12_no_reply_functions.
+
+(* broadcast requests: no solicited fragment from on_rx, in any reachable state, whatever they hold *)
+Theorem C12_no_solicited_tx_for_broadcast : forall AP cfg s answers from m bytes d,
+  Reach AP cfg s ->
+  Forall (fun o => match o with OTx _ b => nth 1 b 0 = 130 | _ => True end)
+         (snd (on_rx cfg (upd_answers s answers) from (Some m) bytes d)).
+Proof. exact no_solicited_tx_for_broadcast. Qed.
+Print Assumptions C12_no_solicited_tx_for_broadcast.
+
+(* ---------- 5. rejections are reported ------------------------------------------------------------------ *)
+
+(* what hdr_rejected means *)
+Theorem C12_hdr_rejected_spec : forall cfg fn hdrs,
+  hdr_rejected cfg fn hdrs <->
+  (fn_executed fn = false \/
+   (fn = 2 /\ existsb (write_rejects cfg) hdrs = true) \/
+   (In fn [3; 4; 5] /\ existsb (fun h => negb (is_ctl_hdr h)) hdrs = true) \/
+   ((fn = 7 \/ fn = 9) /\ existsb (freeze_rejects cfg) hdrs = true) \/
+   (fn = 11 /\ existsb (freeze_at_time_rejects cfg) hdrs = true) \/
+   ((fn = 20 \/ fn = 21) /\ (o_unsol cfg = false \/ existsb (fun h => negb (unsol_class_hdr h)) hdrs = true)) \/
+   (In fn [13; 14; 23; 24] /\ hdrs <> [])).
+Proof. exact hdr_rejected_spec. Qed.
+Print Assumptions C12_hdr_rejected_spec.
+
+(* a new (not retransmitted) unicast request from idle that is malformed (the digest's IIN2 is one of
+   1, 2, 4), unsupported, or of which a header is rejected, is answered in the same step by a
+   solicited fragment to the sender, with the request's sequence number and one of IIN2.0/1/2 set *)
+Theorem C12_rejection_reported : forall AP cfg s from bytes d answers ctl fn obj,
+  Reach AP cfg s -> s_control s = CIdle ->
+  to_treq cfg from d = TqRequest ctl fn obj -> fn <> 0 ->
+  (forall last, classify s None bytes ctl fn obj <> FtRepeatNonRead last) ->
+  match obj with
+  | ObjErr iin2 => N.land iin2 7 <> 0
+  | ObjOk hdrs _ => fn <> 1 /\ hdr_rejected cfg fn hdrs
+  end ->
+  exists pre b post,
+    snd (ostep cfg s (ERx from None bytes d) answers) = pre ++ OTx from b :: post /\ Forall no_tx pre /\
+    nth 1 b 0 = 129 /\ ctl_seq (nth 0 b 0) = ctl_seq ctl /\ N.land (nth 3 b 0) 7 <> 0.
+Proof. exact rejection_reported. Qed.
+Print Assumptions C12_rejection_reported.
+
+(* unknown function codes and invalid header flags (the reader's TqError with a sequence number) *)
+Theorem C12_header_error_reported : forall AP cfg s from bytes d answers q,
+  Reach AP cfg s -> s_control s = CIdle ->
+  to_treq cfg from d = TqError (Some q) ->
+  exists pre b post,
+    snd (ostep cfg s (ERx from None bytes d) answers) = pre ++ OTx from b :: post /\ Forall no_tx pre /\
+    Forall (fun o => match o with OTx _ b' => nth 1 b' 0 = 130 | _ => True end) post /\
+    nth 1 b 0 = 129 /\ ctl_seq (nth 0 b 0) = q mod 16 /\ N.land (nth 3 b 0) 1 = 1.
+Proof. exact header_error_reported. Qed.
+Print Assumptions C12_header_error_reported.
+
+(* ---------- 6. sizes -------------------------------------------------------------------------------------- *)
+
+(* when the database respects the cursor it is given (in every step of the history, start-up included) *)
+Theorem C12_fits : forall cfg s ev answers dest bytes,
+  (10 <= o_sol_tx cfg)%nat ->
+  Reach (Forall (fun a => match a with AWrite _ _ body => (length body <= o_sol_tx cfg - 4)%nat | _ => True end)) cfg s ->
+  Forall (fun a => match a with AWrite _ _ body => (length body <= o_sol_tx cfg - 4)%nat | _ => True end) answers ->
+  In (OTx dest bytes) (snd (ostep cfg s ev answers)) -> nth 1 bytes 0 = 129 ->
+  (length bytes <= o_sol_tx cfg)%nat.
+Proof. exact fits. Qed.
+Print Assumptions C12_fits.
+
+(* the control echo, whatever the capacity: complete (header, count, items) groups, count = number of
+   items, a prefix of the request's groups and items, cut only at an item boundary *)
+Theorem C12_echo_wellformed : forall s cfg cap mode num started hdrs echo ok cbs st started',
+  ctl_headers s cfg cap mode [] num started hdrs = (echo, ok, cbs, st, started') ->
+  exists gs,
+    echo = groups_bytes gs /\
+    (length echo <= cap)%nat /\
+    Forall2 group_echoes gs (firstn (length gs) (req_groups hdrs)) /\
+    (ok = true -> length gs = length (req_groups hdrs) /\
+                  Forall2 (fun e r => length (eg_items e) = length (eg_items r)) gs (req_groups hdrs)).
+Proof. exact echo_wellformed. Qed.
+Print Assumptions C12_echo_wellformed.
+
+Theorem C12_group_bytes_spec : forall g v prefix items,
+  group_bytes g v prefix items =
+  [g; v; qualifier_of prefix] ++ count_bytes prefix (N.of_nat (length items)) ++
+  concat (map (fun it => index_bytes prefix (fst it) ++ snd it) items).
+Proof. exact group_bytes_spec. Qed.
+Print Assumptions C12_group_bytes_spec.
+
+(* ---------- 2 and 4 at full strength: retransmissions ------------------------------------------------- *)
+
+(* In the model the received bytes and the parser's digest of them are independent inputs; in the
+   implementation the digest is computed from the bytes.  `ReachD cfg dg s`: s is reached by a history
+   in which every received fragment's digest is `dg bytes`, for one function dg (ev_ok dg).  Then the
+   retransmission case needs no side condition: EVERY accepted unicast request processed from idle is
+   answered, if at all, to its sender and with its own sequence number ... *)
+Theorem C12_solicited_correlated_full : forall cfg dg s from bytes answers ctl fn obj,
+  ReachD cfg dg s -> s_control s = CIdle ->
+  to_treq cfg from (dg bytes) = TqRequest ctl fn obj ->
+  (exists rest, snd (ostep cfg s (ERx from None bytes (dg bytes)) answers) = OInfo (IIdleRequest fn (ctl_seq ctl)) :: rest) /\
+  Forall (fun o => match o with
+                   | OTx dest b => nth 1 b 0 = 129 -> dest = from /\ ctl_seq (nth 0 b 0) = ctl_seq ctl
+                   | _ => True
+                   end) (snd (ostep cfg s (ERx from None bytes (dg bytes)) answers)).
+Proof. exact solicited_correlated_full. Qed.
+Print Assumptions C12_solicited_correlated_full.
+
+(* ... and a well-formed CONFIRM / DIRECT_OPERATE_NR / IMMED_FREEZE_NR / FREEZE_CLEAR_NR /
+   FREEZE_AT_TIME_NR is never answered, retransmitted or not *)
+Theorem C12_no_reply_functions_full : forall cfg dg s from bytes answers ctl fn hdrs rh,
+  ReachD cfg dg s -> s_control s = CIdle ->
+  to_treq cfg from (dg bytes) = TqRequest ctl fn (ObjOk hdrs rh) ->
+  In fn [0; 6; 8; 10; 12] ->
+  Forall (fun o => match o with OTx _ b => nth 1 b 0 = 130 | _ => True end)
+         (snd (ostep cfg s (ERx from None bytes (dg bytes)) answers)).
+Proof. exact no_reply_functions_full. Qed.
+Print Assumptions C12_no_reply_functions_full.
+
+(* ReachD, spelled out *)
+Theorem C12_ReachD_spec : forall cfg dg s,
+  ReachD cfg dg s <->
+  ((exists sel op iin a0, s = fst (ostart cfg sel op iin a0)) \/
+   (exists s0 ev ans, ReachD cfg dg s0 /\
+      match ev with ERx _ _ bytes d => d = dg bytes | _ => True end /\ s = fst (ostep cfg s0 ev ans))).
+Proof. exact ReachD_spec. Qed.
+Print Assumptions C12_ReachD_spec.
+
+(* ---------- non-vacuity ------------------------------------------------------------------------------------ *)
+
+Definition c12_cfg : ocfg :=
+  {| o_master := 1; o_any_master := false; o_unsol := true; o_broadcast := true;
+     o_confirm_ms := 5000; o_select_ms := 5000; o_retries := Some 2%nat; o_retry_delay_ms := 1000;
+     o_max_controls := Some 4; o_sol_tx := 249%nat; o_delay_ms := 0; o_cold := None; o_warm := None;
+     o_wtime := 0; o_freeze := 0 |}.
+
+Definition c12_a0 : list answer := [AEvinfo false false false false].
+
+(* null unsolicited times out and is re-issued with the next number, then confirmed *)
+Definition c12_prefix : list (oevent * list answer) :=
+  [ (ESleep 5000, [AEvinfo false false false false]);
+    (ERx 1 None [209; 0] (DOk 209 0 RvOk (ObjOk [] [])), []) ].
+
+(* WRITE g80 index 4 (rejected) / unknown function 70 / DIRECT_OPERATE_NR / broadcast WRITE /
+   foreign master / two-fragment READ with its confirm / stray CONFIRM / READ with an unknown object /
+   too short / invalid header flags *)
+Definition c12_rest : list (oevent * list answer) :=
+  [ (ERx 1 None [193; 2; 80; 1] (DOk 193 2 RvOk (ObjOk [WIin [(4, false)]] [])), [AEvinfo false false false false]);
+    (ERx 1 None [194; 70] (DOk 194 70 RvOk (ObjOk [] [])), [AEvinfo false false false false]);
+    (ERx 1 None [195; 6; 12; 1] (DOk 195 6 RvOk (ObjOk [WCtl 12 1 1 [(3, [1; 1; 0])]] [])), []);
+    (ERx 1 (Some BOptional) [196; 2; 80; 1] (DOk 196 2 RvOk (ObjOk [WIin [(7, false)]] [])), []);
+    (ERx 9 None [197; 1; 60; 1] (DOk 197 1 RvOk (ObjOk [] [true])), []);
+    (ERx 1 None [198; 1; 60; 2; 6] (DOk 198 1 RvOk (ObjOk [WOther] [true])),
+       [AIin2 0; AWrite false true [1; 2; 3]; AEvinfo true false false false]);
+    (ERx 1 None [198; 0] (DOk 198 0 RvOk (ObjOk [] [])), [AWrite true false [4; 5]; AEvinfo false false false false]);
+    (ERx 1 None [199; 0] (DOk 199 0 RvOk (ObjOk [] [])), []);
+    (ERx 1 None [200; 1; 1] (DOk 200 1 RvOk (ObjErr 2)), [AEvinfo false false false false]);
+    (ERx 1 None [17; 3] DInsuf, []);
+    (ERx 1 None [201; 3] (DOk 201 3 RvBad (ObjOk [] [])), [AEvinfo false false false false]) ].
+
+Example C12_history_instance :
+  snd (ostart c12_cfg 0 0 0 c12_a0) = [ODb DbEvinfo; OTx 1 [240; 130; 128; 0]; OInfo (IEnterUnsolWait 0)] /\
+  orun c12_cfg (fst (ostart c12_cfg 0 0 0 c12_a0)) (c12_prefix ++ c12_rest) =
+  [ [OAt 5000; OInfo (IUnsolTimeout 0 false); ODb DbEvinfo; OTx 1 [241; 130; 128; 0]; OInfo (IEnterUnsolWait 1)];
+    [OInfo (IUnsolConfirmed 1)];
+    [OInfo (IIdleRequest 2 1); ODb DbEvinfo; OTx 1 [193; 129; 128; 4]];
+    [OInfo (IIdleRequest 70 2); ODb DbEvinfo; OTx 1 [194; 129; 128; 1]];
+    [OInfo (IIdleRequest 6 3); OCb CbBeginFragment; OCb (CbOperate 12 1 3 OpDoNr [1; 1; 0]); OCb CbEndFragment];
+    [OInfo (IIdleRequest 2 4); OInfo IClearRestart; OInfo (IBroadcast 2 0 0)];
+    [];
+    [OInfo (IIdleRequest 1 6); ODb DbSelect; ODb DbWrite; ODb DbEvinfo; OTx 1 [166; 129; 3; 0; 1; 2; 3];
+     OInfo (IEnterSolWait 6)];
+    [OInfo (ISolConfirmed 6); ODb DbClearWritten; ODb DbWrite; ODb DbEvinfo; OTx 1 [71; 129; 0; 0; 4; 5]];
+    [OInfo (IIdleRequest 0 7)];
+    [OInfo (IIdleRequest 1 8); ODb DbEvinfo; OTx 1 [200; 129; 0; 2]];
+    [];
+    [ODb DbEvinfo; OTx 1 [201; 129; 0; 1]] ].
+Proof. split; vm_compute; reflexivity. Qed.
+
+(* the idle state after the prefix: reachable (also under the size hypothesis of C12_fits), and the
+   hypotheses of C12_solicited_correlated / C12_rejection_reported hold for the WRITE of c12_rest *)
+Definition c12_idle : ostate := ofinal c12_cfg (fst (ostart c12_cfg 0 0 0 c12_a0)) c12_prefix.
+
+Example C12_hypotheses_instance :
+  Reach any_answers c12_cfg c12_idle /\
+  Reach (Forall (fun a => match a with AWrite _ _ body => (length body <= o_sol_tx c12_cfg - 4)%nat | _ => True end))
+        c12_cfg c12_idle /\
+  s_control c12_idle = CIdle /\
+  to_treq c12_cfg 1 (DOk 193 2 RvOk (ObjOk [WIin [(4, false)]] [])) = TqRequest 193 2 (ObjOk [WIin [(4, false)]] []) /\
+  (forall last, classify c12_idle None [193; 2; 80; 1] 193 2 (ObjOk [WIin [(4, false)]] []) <> FtRepeatNonRead last) /\
+  hdr_rejected c12_cfg 2 [WIin [(4, false)]] /\
+  hdr_rejected c12_cfg 70 [] /\
+  to_treq c12_cfg 1 (DOk 201 3 RvBad (ObjOk [] [])) = TqError (Some 9) /\
+  to_treq c12_cfg 9 (DOk 197 1 RvOk (ObjOk [] [true])) = TqNone.
+Proof.
+  split; [|split].
+  - apply Reach_ofinal; [apply Reach_start; exact I|]. repeat constructor.
+  - apply Reach_ofinal; [apply Reach_start; repeat constructor|]. repeat constructor.
+  - split; [vm_compute; reflexivity|]. split; [vm_compute; reflexivity|].
+    split; [intros last; vm_compute; discriminate|].
+    split; [right; left; split; reflexivity|]. split; [left; reflexivity|].
+    split; vm_compute; reflexivity.
+Qed.
+
+(* a control echo cut at an item boundary: capacity 20, the second header loses its second item *)
+Example C12_echo_truncated_instance : forall s cfg,
+  ctl_headers s cfg 20 (CmStatus 4) [] 0 false
+    [WCtl 12 1 1 [(3, [1; 1; 0])]; WCtl 12 1 2 [(5, [2; 2; 0]); (6, [3; 3; 0])]]
+  = ([12; 1; 23; 1; 3; 1; 1; 4;   12; 1; 40; 1; 0; 5; 0; 2; 2; 4], false, [], 4, false).
+Proof. intros. vm_compute. reflexivity. Qed.
+
+(* retransmissions: the WRITE answered again with the recorded response (no new IIN query), the
+   DIRECT_OPERATE_NR neither executed again nor answered *)
+Example C12_retransmission_instance :
+  orun c12_cfg c12_idle
+    [ (ERx 1 None [193; 2; 80; 1] (DOk 193 2 RvOk (ObjOk [WIin [(4, false)]] [])), [AEvinfo false false false false]);
+      (ERx 1 None [193; 2; 80; 1] (DOk 193 2 RvOk (ObjOk [WIin [(4, false)]] [])), [AEvinfo false false false false]);
+      (ERx 1 None [195; 6; 12; 1] (DOk 195 6 RvOk (ObjOk [WCtl 12 1 1 [(3, [1; 1; 0])]] [])), []);
+      (ERx 1 None [195; 6; 12; 1] (DOk 195 6 RvOk (ObjOk [WCtl 12 1 1 [(3, [1; 1; 0])]] [])), []) ]
+  = [ [OInfo (IIdleRequest 2 1); ODb DbEvinfo; OTx 1 [193; 129; 128; 4]];
+      [OInfo (IIdleRequest 2 1); OTx 1 [193; 129; 128; 4]];
+      [OInfo (IIdleRequest 6 3); OCb CbBeginFragment; OCb (CbOperate 12 1 3 OpDoNr [1; 1; 0]); OCb CbEndFragment];
+      [OInfo (IIdleRequest 6 3)] ].
+Proof. vm_compute. reflexivity. Qed.
+
+(* a digest function for these fragments, and the idle state reached under it *)
+Definition c12_dg (bytes : list N) : digest :=
+  if bytes_eqb bytes [209; 0] then DOk 209 0 RvOk (ObjOk [] [])
+  else if bytes_eqb bytes [193; 2; 80; 1] then DOk 193 2 RvOk (ObjOk [WIin [(4, false)]] [])
+  else if bytes_eqb bytes [195; 6; 12; 1] then DOk 195 6 RvOk (ObjOk [WCtl 12 1 1 [(3, [1; 1; 0])]] [])
+  else DInsuf.
+
+Example C12_ReachD_instance :
+  ReachD c12_cfg c12_dg c12_idle /\
+  to_treq c12_cfg 1 (c12_dg [195; 6; 12; 1]) = TqRequest 195 6 (ObjOk [WCtl 12 1 1 [(3, [1; 1; 0])]] []).
+Proof.
+  split; [|vm_compute; reflexivity].
+  unfold c12_idle, c12_prefix. cbn [ofinal].
+  apply ReachD_step; [apply ReachD_step; [apply ReachD_start|exact I]|reflexivity].
+Qed.
